@@ -84,6 +84,17 @@ pub struct Outcome {
   pub case: J,
 }
 
+/// Processor time (user + system, seconds) consumed so far by process `pid`, from /proc/<pid>/stat.
+fn cpu_seconds(pid: u32) -> Option<f64> {
+  let stat = std::fs::read_to_string(format!("/proc/{}/stat", pid)).ok()?;
+  // the fields after the parenthesised command name: state is the first, utime the 12th, stime the 13th
+  let rest = &stat[stat.rfind(')')? + 1..];
+  let fields: Vec<&str> = rest.split_whitespace().collect();
+  let utime: f64 = fields.get(11)?.parse().ok()?;
+  let stime: f64 = fields.get(12)?.parse().ok()?;
+  Some((utime + stime) / 100.0)
+}
+
 /// Drives `nshards` children over `total` cases; returns the abnormal outcomes and the number of cases completed.
 /// The child command line is `exe <args...> <shard> <nshards> <start> <progress> <results>`.
 pub fn drive(exe: &str, args: &[String], nshards: u64, total: u64, stall: Duration, tag: &str) -> (Vec<Outcome>, u64, Vec<String>) {
@@ -95,6 +106,8 @@ pub fn drive(exe: &str, args: &[String], nshards: u64, total: u64, stall: Durati
     progress: Progress,
     last_idx: u64,
     last_change: Instant,
+    /// processor time the child had consumed when it last announced a case
+    last_cpu: f64,
     results: String,
     shard: u64,
     restarts: u32,
@@ -127,6 +140,7 @@ pub fn drive(exe: &str, args: &[String], nshards: u64, total: u64, stall: Durati
       progress,
       last_idx: u64::MAX,
       last_change: Instant::now(),
+      last_cpu: 0.0,
       results: rpath,
       shard,
       restarts,
@@ -171,10 +185,15 @@ pub fn drive(exe: &str, args: &[String], nshards: u64, total: u64, stall: Durati
           Ok(None) => {
             alive += 1;
             let idx = slot.progress.get();
+            // a case is a hang when the worker has spent the stall limit of *processor* time on it (a loaded machine does
+            // not make a slow case a hang), or ten times the limit of wall time (a worker that sleeps forever)
+            let cpu = cpu_seconds(slot.child.id()).unwrap_or(0.0);
+            let stalled = if cpu > 0.0 { cpu - slot.last_cpu > stall.as_secs_f64() || slot.last_change.elapsed() > stall * 10 } else { slot.last_change.elapsed() > stall };
             if idx != slot.last_idx {
               slot.last_idx = idx;
               slot.last_change = Instant::now();
-            } else if slot.last_change.elapsed() > stall && idx != u64::MAX {
+              slot.last_cpu = cpu;
+            } else if stalled && idx != u64::MAX {
               let _ = slot.child.kill();
               let _ = slot.child.wait();
               outcomes.push(Outcome { kind: "hang".into(), idx, detail: format!("no progress for {:?}", stall), case: J::Null });
@@ -182,7 +201,7 @@ pub fn drive(exe: &str, args: &[String], nshards: u64, total: u64, stall: Durati
               let s = spawn(slot.shard, idx + 1, slot.restarts + 1);
               result_files.push(s.results.clone());
               replace = Some(Some(s));
-            } else if slot.last_change.elapsed() > stall * 3 {
+            } else if slot.last_change.elapsed() > stall * 30 {
               let _ = slot.child.kill();
               let _ = slot.child.wait();
               machinery.push(format!("worker {} shard {} never announced a case", tag, slot.shard));
